@@ -61,7 +61,132 @@ func (c *c17) Cases(tier string, seed int64) []core.Case {
 			cs = append(cs, core.MkCase(fmt.Sprintf("par1-encoder-%s-%d", h, i), c17Params{r.Int63(), "par1-encoder:" + h}))
 		}
 	}
+	// several Creates (and Verifies of the reference) of one set at the same
+	// time in one process, plain and under the race detector: what Create
+	// writes does not depend on what else the process is doing
+	for i := 0; i < map[string]int{"quick": 2, "thorough": 12}[tier]; i++ {
+		for _, f := range []string{"par2-concurrent", "par1-concurrent"} {
+			cs = append(cs, core.MkCase(fmt.Sprintf("%s-%d", f, i), c17Params{r.Int63(), f}))
+			if i == 0 {
+				rc := core.MkCase(fmt.Sprintf("race-%s-%d", f, i), c17Params{r.Int63(), f})
+				rc.Race = true
+				cs = append(cs, rc)
+			}
+		}
+	}
 	return cs
+}
+
+// runConcurrent: see Cases.
+func (c *c17) runConcurrent(r *core.R, p c17Params, rng *rand.Rand) {
+	root, err := os.MkdirTemp("", "c17c-")
+	if err != nil {
+		r.Inconclusive("tempdir: %v", err)
+		return
+	}
+	defer os.RemoveAll(root)
+	par1Mode := p.Fmt == "par1-concurrent"
+	ext := map[bool]string{true: ".par", false: ".par2"}[par1Mode]
+	var set scen.Set
+	set.SliceSize = 4 * (200 + rng.Intn(400))
+	set.Blocks = 5 + rng.Intn(6)
+	nf := 3 + rng.Intn(3)
+	inputs := map[string]bool{}
+	for i := 0; i < nf; i++ {
+		f := scen.File{Name: fmt.Sprintf("in%d.dat", i), Data: scen.GenData(rng, "random", 9000+rng.Intn(30000), 4)}
+		set.Files = append(set.Files, f)
+		inputs[f.Name] = true
+	}
+	create := func(dir string, g int) error {
+		var paths []string
+		for _, f := range set.Files {
+			paths = append(paths, filepath.Join(dir, f.Name))
+		}
+		var cerr error
+		if pi := core.Protect(func() {
+			if par1Mode {
+				cerr = par1.Create(filepath.Join(dir, "arch"+ext), paths, par1.CreateOptions{NumParityFiles: set.Blocks})
+			} else {
+				cerr = par2.Create(filepath.Join(dir, "arch"+ext), paths, par2.CreateOptions{SliceByteCount: set.SliceSize, NumParityShards: set.Blocks, NumGoroutines: g})
+			}
+		}); pi != nil {
+			return fmt.Errorf("panic: %s", pi.Msg)
+		}
+		return cerr
+	}
+	refDir := filepath.Join(root, "ref", c17SetDirName)
+	set.Materialize(refDir)
+	if err := create(refDir, 1); err != nil {
+		r.Violate("create-failed", "reference Create: %v", err)
+		return
+	}
+	ref := createdFiles(refDir, inputs)
+	rounds := 6
+	if os.Getenv("VW_IS_RACE") != "" {
+		rounds = 2
+	}
+	const par = 4
+	for round := 0; round < rounds; round++ {
+		var dirs []string
+		for k := 0; k < par; k++ {
+			d := filepath.Join(root, fmt.Sprintf("r%dk%d", round, k), c17SetDirName)
+			set.Materialize(d)
+			dirs = append(dirs, d)
+		}
+		errs := make([]error, par)
+		verrs := make([]error, 2)
+		clean := make([]bool, 2)
+		var wg sync.WaitGroup
+		start := make(chan struct{})
+		for k := 0; k < par; k++ {
+			wg.Add(1)
+			go func(k int) {
+				defer wg.Done()
+				<-start
+				errs[k] = create(dirs[k], 1+k%3)
+			}(k)
+		}
+		for v := 0; v < 2; v++ {
+			wg.Add(1)
+			go func(v int) {
+				defer wg.Done()
+				<-start
+				core.Protect(func() {
+					if par1Mode {
+						var vr par1.VerifyResult
+						vr, verrs[v] = par1.Verify(filepath.Join(refDir, "arch"+ext), par1.VerifyOptions{VerifyAllData: true})
+						clean[v] = verrs[v] == nil && !vr.FileCounts.RepairNeeded()
+					} else {
+						var vr par2.VerifyResult
+						vr, verrs[v] = par2.Verify(filepath.Join(refDir, "arch"+ext), par2.VerifyOptions{NumGoroutines: 2})
+						clean[v] = verrs[v] == nil && !vr.ShardCounts.RepairNeeded()
+					}
+				})
+			}(v)
+		}
+		close(start)
+		wg.Wait()
+		for k := 0; k < par; k++ {
+			if errs[k] != nil {
+				r.Violate("create-failed|concurrent", "concurrent Create #%d (round %d): %v", k, round, errs[k])
+				continue
+			}
+			if d := scen.DiffSnap(ref, createdFiles(dirs[k], inputs)); len(d) > 0 {
+				r.Violate("create-output-varies|concurrent-creates", "%s Create output differs from the reference when %d Creates and 2 Verifies run at the same time in one process (round %d): %v", p.Fmt, par, round, d)
+			}
+			r.Count("variant_runs", 1)
+			r.Key("%s|concurrent|%d|%d", p.Fmt, round, k)
+		}
+		for v := 0; v < 2; v++ {
+			if !clean[v] {
+				r.Violate("verify-varies|concurrent", "%s Verify of the untouched reference set while %d Creates run in the same process: clean=%v err=%v", p.Fmt, par, clean[v], verrs[v])
+			}
+		}
+		for _, d := range dirs {
+			os.RemoveAll(filepath.Dir(d))
+		}
+	}
+	r.Sample(map[string]interface{}{"format": p.Fmt, "files": nf, "slice": set.SliceSize, "blocks": set.Blocks, "concurrent_creates": par, "concurrent_verifies": 2, "rounds": rounds, "race_build": os.Getenv("VW_IS_RACE") != ""})
 }
 
 // runOutcomes: Create is run with options left at their documented defaults
@@ -301,6 +426,10 @@ func (c *c17) Run(cs core.Case) core.Result {
 		// <format>-encoder:<history>
 		i := strings.Index(p.Fmt, "-encoder:")
 		encoderHistoryDifferential(r, p.Fmt[:i], p.Fmt[i+9:], "create-output-varies|encoder-reuse", rng)
+		return r.Done()
+	}
+	if p.Fmt == "par2-concurrent" || p.Fmt == "par1-concurrent" {
+		c.runConcurrent(r, p, rng)
 		return r.Done()
 	}
 	if p.Fmt == "par2-big-volumes" ||
